@@ -131,7 +131,13 @@ def run(ctx):
     cases = core.replay_cases(ctx) or make_cases(ctx)
     # a share of the cases runs on parsers that were all constructed before any of them was used (state shared behind
     # the constructor would surface as another case's result)
-    results = core.run_cases_prebuilt(ctx, cases, lambda i: i % 4 == 0 and not ctx.replay, size=5)
+    # the custom-format parser takes "current" from the system clock: a share of its cases runs with the library's clock
+    # on days 29-31 and on Feb 28 / 29 (the expected values come from the same, moved, clock)
+    if not ctx.replay:
+        for i, c in enumerate(cases):
+            if c["parser"] == "fmt" and i % 2 == 0:
+                c["fake_today"] = ctx.rng.choice([[2024, 2, 29], [2023, 12, 31], [2021, 1, 31], [2022, 3, 31], [2023, 2, 28], [2024, 5, 31], [2021, 11, 30], [2021, 8, 29]])
+    results = core.run_cases_prebuilt(ctx, cases, lambda i: i % 4 == 0 and not ctx.replay and not cases[i].get("fake_today"), size=5)
     records, nabs, clockskip = [], 0, 0
     for i, (c, r) in enumerate(zip(cases, results)):
         ref = c["ref"]
